@@ -55,6 +55,59 @@ def gen_uval(rng):
                                                                           for _ in range(rng.randrange(1, 12)))])]
 
 
+# ---- objects of a type outside the encoder table (the lookup is by EXACT type): form + payload -> the object
+class StrSub(str):
+    pass
+
+
+class IntSub(int):
+    pass
+
+
+class BytesSub(bytes):
+    pass
+
+
+OTHER_FORMS = {
+    'bool': lambda p: p == 'True',
+    'none': lambda p: None,
+    'float': lambda p: float(p),
+    'strsub': lambda p: StrSub(p),
+    'intsub': lambda p: IntSub(int(p)),
+    'bytessub': lambda p: BytesSub(p.encode('latin-1')),
+    'tuple': lambda p: (p,),
+}
+
+
+def other_object(form, payload):
+    return OTHER_FORMS[form](payload)
+
+
+def gen_other(rng):
+    form = rng.choice(['bool', 'bool', 'none', 'float', 'strsub', 'strsub', 'intsub', 'intsub', 'bytessub', 'tuple'])
+    p = {'bool': ['True', 'False'], 'none': ['None'], 'float': ['1.5', '-0.0', '1e+30', '7.0'],
+         'strsub': ['bob', '', '12', 'Québec', '€'], 'intsub': ['0', '7', '-3', '123456789012345678901'],
+         'bytessub': ['bob', '\xff\x00', ''], 'tuple': ['a']}[form]
+    return [3, form, rng.choice(p)]
+
+
+# constructor keywords in the order of the model's mask; the documented defaults
+OMIT_FIELDS = ['cookie_name', 'secure', 'include_ip', 'timeout', 'reissue_time', 'max_age', 'http_only', 'path',
+               'wild_domain', 'parent_domain', 'domain', 'hashalg', 'samesite']
+DOC_DEFAULTS = {'cookie_name': 'auth_tkt', 'secure': False, 'include_ip': False, 'timeout': None, 'reissue_time': None,
+                'max_age': None, 'http_only': False, 'path': '/', 'wild_domain': True, 'parent_domain': False,
+                'domain': None, 'hashalg': 'sha512', 'samesite': 'Lax'}
+
+
+def gen_omit(rng, cfg):
+    """which keywords the caller leaves out: only ones whose value is the documented default"""
+    if rng.random() < 0.55:
+        return None
+    p = rng.choice([0.5, 0.9, 1.0])
+    om = [cfg[f] == DOC_DEFAULTS[f] and type(cfg[f]) is type(DOC_DEFAULTS[f]) and rng.random() < p for f in OMIT_FIELDS]
+    return om if any(om) else None
+
+
 def gen_tokens(rng, bad_ok=True):
     if rng.random() < 0.35:
         return []
@@ -65,6 +118,12 @@ def gen_tokens(rng, bad_ok=True):
 
 
 def gen_cfg(rng):
+    if rng.random() < 0.12:
+        # a configuration close to the documented defaults (so that most keywords can be omitted)
+        c = dict(DOC_DEFAULTS, secret=rng.choice(SECRETS[:4]))
+        for f in rng.sample(OMIT_FIELDS, rng.choice([0, 1, 2, 3])):
+            c[f] = gen_cfg(rng)[f]
+        return c
     return {
         'secret': rng.choice(SECRETS[:4]) if rng.random() < 0.97 else '',
         'cookie_name': rng.choice(['auth_tkt', 'auth_tkt', 'tk']),
@@ -105,7 +164,8 @@ def gen_ops(rng):
         if q < 0.5:
             ops.append([0])
         elif q < 0.85:
-            ops.append([1, gen_uval(rng), rng.choice([None, None, 5, 0, 3600]), gen_tokens(rng)])
+            u = gen_other(rng) if rng.random() < 0.15 else gen_uval(rng)
+            ops.append([1, u, rng.choice([None, None, 5, 0, 3600]), gen_tokens(rng)])
         else:
             ops.append([2])
     return ops
@@ -341,7 +401,10 @@ def gen_case(rng):
                                 'tick': (not seam) and rng.random() < 0.25},
             'second': second, 'ops': ops,
             'origin': origin, 'other_u': other_u, 'kind': kind, 'clock': clock, 'seam': seam,
-            'via_policy': rng.random() < 0.3}
+            'via_policy': rng.random() < 0.3,
+            'omit': gen_omit(rng, cfg), 'secret_bytes': rng.random() < 0.15,
+            'tokform': rng.choice(['tuple', 'tuple', 'list', 'gen', 'iter']),
+            'numform': rng.choice(['int', 'int', 'int', 'str', 'float'])}
     return case
 
 
@@ -397,6 +460,14 @@ def valid(case):
                 return False
         if case.get('clock') not in CLOCKS:
             return False
+        om = case.get('omit')
+        if om is not None:
+            if len(om) != len(OMIT_FIELDS) or any(o and cfg[f] != DOC_DEFAULTS[f] for o, f in zip(om, OMIT_FIELDS)):
+                return False
+        if case.get('numform') not in (None, 'int', 'str', 'float'):
+            return False
+        if case.get('tokform') not in (None, 'tuple', 'list', 'gen', 'iter') or case.get('secret_bytes') not in (None, False, True):
+            return False
         k = case.get('kind', '')
         return k in KINDS or (k.startswith('edited:') and k[7:] in EDITS)
     except Exception:
@@ -412,6 +483,8 @@ CLOCKS = {'same', 'later', 'earlier', 'timeout-1', 'timeout+0', 'timeout+1', 're
 
 def _uval_ok(u):
     try:
+        if u[0] == 3:
+            return len(u) == 3 and u[1] in OTHER_FORMS and isinstance(u[2], str) and (other_object(u[1], u[2]) is None or True)
         k, s = u
         if k == 1:
             int(s)
